@@ -256,22 +256,16 @@ Qed.
 
 Lemma feed_after pb B c :
   c <> [] ->
-  let st := state_of (runL pb [] B []) in
-  same_obs (feed pb st c) (state_of (runL pb [] (B ++ c) [])).
+  same_obs (feed pb (state_of (runL pb [] B [])) c) (state_of (runL pb [] (B ++ c) [])).
 Proof.
-  intros NE st. pose proof (runL_app pb c (length B) [] B [] (le_n _)) as A. cbn zeta in A.
-  unfold st, feed, state_of. cbn [st_err st_buf st_stack st_outs].
-  destruct (r_err (runL pb [] B [])) as [e|] eqn:E.
-  - destruct A as [A1 A2]. unfold same_obs. cbn [st_outs st_err]. rewrite E, A1, A2.
-    repeat split; congruence.
-  - destruct c as [|y c]; [congruence|].
-    assert (forall l : list N, match (y :: c), l with
-                               | [], [] => 1 | [], _ :: _ => 2 | _, _ => 3 end = 3)%nat as _ by (intros []; reflexivity).
-    replace (match r_buf (runL pb [] B []) with [] | _ => _ end)
-      with (let buf := r_buf (runL pb [] B []) ++ y :: c in
-            let r := run (length buf) pb (r_stack (runL pb [] B [])) buf (r_outs (runL pb [] B [])) in
-            mkState (r_stack r) (r_buf r) (r_outs r) (r_err r)) by (destruct (r_buf (runL pb [] B [])); reflexivity).
-    cbn zeta. fold (runL pb (r_stack (runL pb [] B [])) (r_buf (runL pb [] B []) ++ y :: c) (r_outs (runL pb [] B []))).
+  intros NE. destruct c as [|y c]; [congruence|].
+  pose proof (runL_app pb (y :: c) (length B) [] B [] (le_n _)) as A. cbn zeta in A.
+  remember (runL pb [] B []) as R eqn:HR.
+  destruct R as [rs rb ro re rf]. cbn [r_err r_stack r_buf r_outs] in A.
+  unfold feed, state_of. cbn [st_err st_buf st_stack st_outs r_err r_stack r_buf r_outs].
+  destruct re as [e|].
+  - destruct A as [A1 A2]. unfold same_obs. cbn [st_outs st_err]. rewrite A1, A2. repeat split; congruence.
+  - change (run (length (rb ++ y :: c)) pb rs (rb ++ y :: c) ro) with (runL pb rs (rb ++ y :: c) ro).
     rewrite <- A. unfold same_obs. cbn. auto.
 Qed.
 
@@ -280,9 +274,9 @@ Proof. unfold same_obs; auto. Qed.
 
 Lemma same_obs_trans a b c : same_obs a b -> same_obs b c -> same_obs a c.
 Proof.
-  unfold same_obs. intros (A1 & A2 & A3) (B1 & B2 & B3). repeat split; try congruence.
-  - intros H. destruct (A3 H) as [X _]. destruct (B3 ltac:(congruence)) as [Y _]. congruence.
-  - intros H. destruct (A3 H) as [_ X]. destruct (B3 ltac:(congruence)) as [_ Y]. congruence.
+  unfold same_obs. intros (A1 & A2 & A3) (B1 & B2 & B3). split; [congruence|]. split; [congruence|].
+  intros H. destruct (A3 H) as [X1 X2]. assert (H2 : st_err b = None) by congruence.
+  destruct (B3 H2) as [Y1 Y2]. split; congruence.
 Qed.
 
 (** feeding respects same_obs *)
@@ -294,20 +288,26 @@ Proof.
     apply same_obs_refl.
 Qed.
 
+Lemma feed_all_cons pb st c cs : feed_all pb st (c :: cs) = feed_all pb (feed pb st c) cs.
+Proof. reflexivity. Qed.
+
+Lemma feed_all_same_obs pb cs : forall s1 s2,
+  same_obs s1 s2 -> same_obs (feed_all pb s1 cs) (feed_all pb s2 cs).
+Proof.
+  induction cs as [|c cs IH]; intros s1 s2 A; [exact A|].
+  rewrite !feed_all_cons. apply IH. now apply feed_same_obs.
+Qed.
+
 Lemma feed_all_split pb : forall cs B,
   Forall (fun c => c <> []) cs ->
   same_obs (feed_all pb (state_of (runL pb [] B [])) cs) (state_of (runL pb [] (B ++ concat cs) [])).
 Proof.
   induction cs as [|c cs IH]; intros B F.
   - cbn. rewrite app_nil_r. apply same_obs_refl.
-  - inversion F as [|? ? Fc Fcs]; subst. cbn [feed_all fold_left concat].
+  - inversion F as [|? ? Fc Fcs]; subst. rewrite feed_all_cons. cbn [concat].
     eapply same_obs_trans.
-    2:{ rewrite app_assoc. apply IH. exact Fcs. }
-    pose proof (feed_after pb B c Fc) as A. cbn zeta in A.
-    clear IH. revert A. generalize (feed pb (state_of (runL pb [] B [])) c) (state_of (runL pb [] (B ++ c) [])).
-    intros s1 s2 A. fold (feed_all pb s1 cs). fold (feed_all pb s2 cs).
-    revert s1 s2 A. induction cs as [|d cs IH2]; intros s1 s2 A; [exact A|].
-    cbn. inversion Fcs; subst. apply IH2; [assumption|]. now apply feed_same_obs.
+    + apply feed_all_same_obs. apply feed_after. exact Fc.
+    + rewrite app_assoc. apply IH. exact Fcs.
 Qed.
 
 Lemma any_split pb cs :
